@@ -266,8 +266,9 @@ FAMS = [
          kind='list', min=1, max=dict(q=1, t=1),
          slots=[dict(q='COLORTOKS_Q', t='COLORTOKS_T')]),
     dict(fam='num', props=['width', 'x', 'z-index', 'line-height', 'margin-left', 'transform', 'flex', 'grid-template-columns', 'opacity', 'rotate:EXCL'], kind='num',
-         slots=[dict(q=L('0', '0.0', '.0', '-0', '1', '1.0', '01', '+1', '-1', '0.5', '.50', '1e3', '1000', '5000', '1e-2', '0.001', '100', '1.5E10', '-0.25E+10', '2.50e-10'),
-                     t=L('0', '00', '0.0', '.0', '-0', '+0', '1', '1.0', '01', '+1', '-1', '0.5', '.50', '-.5', '1e3', '1E3', '1000', '5000', '1e-2', '0.001', '1.5e2', '10e-1', '0e5', '100', '1e+3', '12345678901234567890', '0.30000', '1e0', '10', '0.10', '1.5E10', '1.50E20', '-0.25E+10', '2.50e-10', '2.5E-20', '0.0E10', '15E10', '1.5e+100')),
+         slots=[dict(q=L('0', '0.0', '.0', '-0', '1', '1.0', '01', '+1', '-1', '0.5', '.50', '1e3', '1000', '5000', '1e-2', '0.001', '100', '1.5E10', '-0.25E+10', '2.50e-10', '04E338353804338273503554', '00.250E+1234567890123456789'),
+                     t=L('0', '00', '0.0', '.0', '-0', '+0', '1', '1.0', '01', '+1', '-1', '0.5', '.50', '-.5', '1e3', '1E3', '1000', '5000', '1e-2', '0.001', '1.5e2', '10e-1', '0e5', '100', '1e+3', '12345678901234567890', '0.30000', '1e0', '10', '0.10', '1.5E10', '1.50E20', '-0.25E+10', '2.50e-10', '2.5E-20', '0.0E10', '15E10', '1.5e+100', '04E338353804338273503554', '00.250E+1234567890123456789', '007.50E-12345678901234567890',
+                         '+01e99999999999999999999', '0.0e12345678901234567890', '00e9223372036854775808', '010E-9223372036854775809')),
                 dict(q=L('', '%', 'px', 'PX', 'em', 'deg', 's', 'fr', 'x'), t=L('', '%', 'px', 'PX', 'em', 'rem', 'vh', 'q', 'Q', 'deg', 'turn', 's', 'ms', 'fr', 'dpi', 'hz', 'x', 'e', 'in')),
                 dict(q=L('top', 'calc', 'translate', 'var'), t=L('top', 'calc', 'translate', 'var', 'min', 'foo', 'rotate'))]),
     dict(fam='strurl', props=['content', 'background-image', 'src', 'cursor', 'x'], kind='list', min=1, max=dict(q=1, t=2),
